@@ -1,71 +1,43 @@
-(** C36 — proofs, part 5: the tags and milestones recorded with a task are all the
-    tags and milestones the history holds for it. *)
+(** C36 — proofs, part 5: which tags and milestones wait for the start of a task. *)
 From Akita Require Import Lib.Base C36.Model C36.Spec C36.Proofs1 C36.Proofs2 C36.Proofs3.
 Local Open Scope N_scope.
 
-Definition notes_task (id : N) (o : op) : bool :=
-  match o with OTag _ task _ _ => task =? id | OMile _ task _ _ _ => task =? id | _ => false end.
+Definition about (id : N) (o : op) : bool := starts_of id o || ends_of id o.
 
-Lemma no_notes_empty id l : forallb (fun o => negb (notes_task id o)) l = true ->
-  tags_of id l = [] /\ miles_of id l = [].
+Lemma pend_app id a2 : forall h,
+  forallb (fun o => negb (about id o)) a2 = true ->
+  pend_tags id (rev a2 ++ h) = pend_tags id h ++ tags_of id a2 /\
+  pend_miles id (rev a2 ++ h) = pend_miles id h ++ miles_of id a2.
 Proof.
-  induction l as [|o r IH]; intro H; [split; reflexivity|].
-  cbn [forallb] in H. apply andb_true_iff in H. destruct H as [Ho Hr]. destruct (IH Hr) as [I1 I2].
-  apply negb_true_iff in Ho. unfold tags_of, miles_of in *. cbn [flat_map]. rewrite I1, I2.
-  destruct o; cbn [notes_task] in Ho; try rewrite Ho; split; reflexivity.
+  induction a2 as [|o a2 IH] using rev_ind; intros h H.
+  - cbn. rewrite !app_nil_r. auto.
+  - rewrite forallb_app in H. apply andb_true_iff in H. destruct H as [H Ho]. cbn in Ho.
+    rewrite andb_true_r in Ho. apply negb_true_iff in Ho. unfold about in Ho.
+    apply orb_false_iff in Ho. destruct Ho as [Hs He].
+    rewrite rev_unit. cbn [app]. destruct (IH h H) as [I1 I2].
+    rewrite tags_of_app, miles_of_app, !app_assoc, <- I1, <- I2.
+    destruct o; cbn [starts_of ends_of] in Hs, He;
+      cbn [pend_tags pend_miles tags_of miles_of flat_map app];
+      rewrite ?Hs, ?He, ?app_nil_r; auto.
+    + destruct (task =? id); rewrite ?app_nil_r; auto.
+    + destruct (task =? id); rewrite ?app_nil_r; auto.
 Qed.
 
-Lemma wf_prefix_live a o rest : wf_ops (a ++ o :: rest) = true -> wf_h (o :: rev a) = true.
+Lemma pend_reset id x h : about id x = true -> pend_tags id (x :: h) = [] /\ pend_miles id (x :: h) = [].
 Proof.
-  unfold wf_ops. rewrite rev_app_distr. cbn [rev]. rewrite <- app_assoc. cbn [app]. apply wf_h_app.
+  unfold about. destruct x; cbn [starts_of ends_of pend_tags pend_miles orb]; try discriminate;
+    rewrite ?orb_false_r; intros ->; auto.
 Qed.
 
-Lemma started_ids_rev_In i l : In i (started_ids (rev l)) <-> In i (started_ids l).
+(** The tags / milestones recorded with a task besides those that arrive while it
+    runs are exactly the ones that mention its ID since the last start or end of
+    that ID (or since the beginning). *)
+Theorem pending_notes id a1 a2 :
+  (a1 = [] \/ exists a0 x, a1 = a0 ++ [x] /\ about id x = true) ->
+  forallb (fun o => negb (about id o)) a2 = true ->
+  pend_tags id (rev (a1 ++ a2)) = tags_of id a2 /\ pend_miles id (rev (a1 ++ a2)) = miles_of id a2.
 Proof.
-  unfold started_ids. rewrite !in_flat_map. split; intros [e [H1 H2]]; exists e; split; auto;
-    [apply in_rev; exact H1|apply in_rev; rewrite rev_involutive; exact H1].
-Qed.
-
-Lemma started_ids_app a b : started_ids (a ++ b) = started_ids a ++ started_ids b.
-Proof. unfold started_ids. apply flat_map_app. Qed.
-
-Theorem notes_between a id p k w l s b e c :
-  wf_ops (a ++ OStart id p k w l s :: b ++ OEnd id e :: c) = true ->
-  tags_of id (a ++ OStart id p k w l s :: b ++ OEnd id e :: c) = tags_of id b /\
-  miles_of id (a ++ OStart id p k w l s :: b ++ OEnd id e :: c) = miles_of id b.
-Proof.
-  intro Hwf.
-  assert (forallb (fun o => negb (notes_task id o)) a = true) as Ha.
-  { apply forallb_forall. intros x Hx. apply negb_true_iff. destruct (notes_task id x) eqn:E; [exfalso|reflexivity].
-    apply in_split in Hx. destruct Hx as [a1 [a2 ->]].
-    (* the note needs the task to be running, i.e. started before it ... *)
-    assert (live id (rev a1) = true) as Hl.
-    { rewrite <- app_assoc in Hwf. cbn [app] in Hwf. apply wf_prefix_live in Hwf.
-      apply wf_h_cons in Hwf. destruct Hwf as [_ [_ Hop]].
-      destruct x; cbn [notes_task] in E; try discriminate; apply N.eqb_eq in E; subst; exact Hop. }
-    (* ... but the task's (only) start comes later *)
-    assert (wf_h (OStart id p k w l s :: rev (a1 ++ x :: a2)) = true) as Hs by (eapply wf_prefix_live; exact Hwf).
-    apply wf_h_cons in Hs. destruct Hs as [_ [_ [_ [Hns _]]]].
-    unfold live in Hl. apply andb_true_iff in Hl. destruct Hl as [Hl _]. apply existsb_eqb_In in Hl.
-    assert (existsb (N.eqb id) (started_ids (rev (a1 ++ x :: a2))) = true) as Hc; [|congruence].
-    apply existsb_eqb_In. apply started_ids_rev_In. rewrite started_ids_app. apply in_or_app. left.
-    apply started_ids_rev_In. exact Hl. }
-  assert (forallb (fun o => negb (notes_task id o)) c = true) as Hc.
-  { apply forallb_forall. intros x Hx. apply negb_true_iff. destruct (notes_task id x) eqn:E; [exfalso|reflexivity].
-    apply in_split in Hx. destruct Hx as [c1 [c2 ->]].
-    assert (wf_ops ((a ++ OStart id p k w l s :: b ++ OEnd id e :: c1) ++ x :: c2) = true) as Hwf'.
-    { rewrite <- Hwf. f_equal. rewrite <- !app_assoc. cbn [app]. rewrite <- !app_assoc. reflexivity. }
-    apply wf_prefix_live in Hwf'. apply wf_h_cons in Hwf'. destruct Hwf' as [_ [_ Hop]].
-    assert (live id (rev (a ++ OStart id p k w l s :: b ++ OEnd id e :: c1)) = true) as Hl.
-    { destruct x; cbn [notes_task] in E; try discriminate; apply N.eqb_eq in E; subst; exact Hop. }
-    unfold live in Hl. apply andb_true_iff in Hl. destruct Hl as [_ Hl]. apply negb_true_iff in Hl.
-    assert (existsb (N.eqb id) (ended_ids (rev (a ++ OStart id p k w l s :: b ++ OEnd id e :: c1))) = true) as Hcc; [|congruence].
-    apply existsb_eqb_In. apply ended_ids_rev_In. rewrite !ended_ids_app. apply in_or_app. right.
-    change (OStart id p k w l s :: b ++ OEnd id e :: c1) with ([OStart id p k w l s] ++ b ++ OEnd id e :: c1).
-    rewrite !ended_ids_app. apply in_or_app. right. apply in_or_app. right. left. reflexivity. }
-  destruct (no_notes_empty id a Ha) as [A1 A2]. destruct (no_notes_empty id c Hc) as [C1 C2].
-  change (a ++ OStart id p k w l s :: b ++ OEnd id e :: c)
-    with (a ++ [OStart id p k w l s] ++ b ++ [OEnd id e] ++ c).
-  rewrite !tags_of_app, !miles_of_app, A1, A2, C1, C2. cbn [tags_of miles_of flat_map app]. rewrite !app_nil_r.
-  split; reflexivity.
+  intros Ha1 Ha2. rewrite rev_app_distr. destruct (pend_app id a2 (rev a1) Ha2) as [-> ->].
+  destruct Ha1 as [->|[a0 [x [-> Hx]]]]; [cbn; auto|].
+  rewrite rev_unit. destruct (pend_reset id x (rev a0) Hx) as [-> ->]. auto.
 Qed.
